@@ -16,7 +16,7 @@
 (*        <<"MON", label, scenario, event number, witness>>                 *)
 (*    The driver maps labels to properties.                                 *)
 (***************************************************************************)
-EXTENDS Engine, Json, IOUtils, TLCExt
+EXTENDS Engine, Json, IOUtils, TLCExt, TimeTableRule
 
 VARIABLES
     l,      \* index of the next event
@@ -377,6 +377,17 @@ TrHang(ev) ==
 
 TrSkip(ev) == UNCHANGED evars /\ UNCHANGED <<scn, eng, before>>
 
+\* the incremental time-table propagators of cumulative (design-level model: TimeTable.tla).
+\* "prop": the wrapped propagate has brought its time-table up to date - it has to be the
+\* time-table of the current domains (TimeTable!Current); "sync": the rule of synchronise
+\* (informational: an implementation may keep its stored updates instead of rebuilding)
+TrTimeTable(ev) ==
+    /\ IF ev.what = "prop"
+       THEN Mon("C08.TimeTableCurrent", ev.same, <<ev.incr, ev.empty>>)
+       ELSE Mon("C08x.SyncRule", ev.incr \/ (SyncOutdated(TRUE, ev.ob, ev.empty, ev.upd) => ev.oa),
+                <<ev.ob, ev.empty, ev.upd, ev.oa>>)
+    /\ UNCHANGED evars /\ UNCHANGED <<scn, eng, before>>
+
 \* ---------------------------------------------------------------- the trace specification
 Dispatch(ev) ==
     CASE ev.e = "Reset" -> TrReset(ev)
@@ -416,6 +427,7 @@ Dispatch(ev) ==
       [] ev.e = "Panic" -> TrPanic(ev)
       [] ev.e = "Hang" -> TrHang(ev)
       [] ev.e = "Reif" -> TrSkip(ev)
+      [] ev.e = "TT" -> TrTimeTable(ev)
 
 TraceInit ==
     /\ EInit
